@@ -139,6 +139,63 @@ theorem display_order_transparent (render : α → List Char) (m m' : Matrix α)
       display_single_line render m' h' hfit' (hsz ▸ h0) hs']
     simp only [displaySpec, widthOf, rowText, hr, hc, hat]
 
+/-! ### Debug: labels -/
+
+/-- Debug's header line: the column numbers, right-aligned to the label width, each followed by
+the blank space that stands over its column's cells -/
+def debugHeaderSpec (ncols iw w : Nat) : List Char :=
+  spaceW TAB_SIZE ++ spaceW iw ++ spaceW OUTER_GAP ++ [' '] ++
+    List.intercalate (spaceW INTER_GAP)
+      ((List.range ncols).map fun c => padLeftNat c iw ++ spaceW INNER_GAP ++ spaceW w)
+
+/-- one Debug line per logical row: the row number, then for each column (in column order) the
+element's position in MEMORY order (`m.idx r c`) as its label and the element's text -/
+def debugRowText (render : α → List Char) (m : Matrix α) (w iw r : Nat) : List Char :=
+  spaceW TAB_SIZE ++ padLeftNat r iw ++ spaceW OUTER_GAP ++ ['['] ++
+    (List.intercalate (spaceW INTER_GAP)
+      ((List.range m.ncols).map fun c =>
+        padLeftNat (m.idx r c) iw ++ spaceW INNER_GAP ++
+          ((m.at? r c).map fun x => cellText w (render x)).getD [])) ++
+    [']', '\n']
+
+/-- the Debug text the property describes, for single-line renderings; the label width is the
+number of digits of the size -/
+def debugSpec (render : α → List Char) (m : Matrix α) : List Char :=
+  ['[', '\n'] ++ debugHeaderSpec m.ncols (toString m.data.size).length (widthOf render m) ++ ['\n'] ++
+    ((List.range m.nrows).flatMap fun r =>
+      debugRowText render m (widthOf render m) (toString m.data.size).length r) ++ [']']
+
+/-- C20, Debug clause: for single-line renderings Debug prints a header with the column numbers
+and one bracketed line per logical row, labelled with the row number, in which every element is
+labelled with its position in memory order -/
+theorem debug_single_line (render : α → List Char) (m : Matrix α) (h : m.Coh)
+    (hfit : m.data.size ≤ usizeMax) (hne : m.data.size ≠ 0)
+    (hs : ∀ x ∈ m.data.toList, SingleLine (render x)) :
+    debug render m = .ok (debugSpec render m) := by
+  have hs' : ∀ x ∈ m.data.toList, '\n' ∉ render x := hs
+  rw [debug_unfold render m hne,
+    rowsLoop_spec_gen render m h hfit hs' (dispW render m) (dispH render m) (dispH_le_one render m hs')
+      (fun row => spaceW TAB_SIZE ++ padLeftNat row (toString m.data.size).length ++ spaceW OUTER_GAP)
+      (spaceW TAB_SIZE ++ spaceW (toString m.data.size).length ++ spaceW OUTER_GAP ++ [' '])
+      (fun index => padLeftNat index (toString m.data.size).length ++ spaceW INNER_GAP)
+      (fun _ => spaceW (toString m.data.size).length ++ spaceW INNER_GAP)
+      m.nrows 0 (cache0 render m) [] (by omega)
+      (cache0_size render m)
+      (fun r c _ hr hc => by
+        obtain ⟨x, hx⟩ := at?_some m h hr hc
+        exact ⟨x, hx, cache0_at render m hx⟩),
+    debugHeader_spec]
+  simp only [bind, Except.bind, pure, Except.pure, debugSpec, debugHeaderSpec, widthOf,
+    ← dispW_eq render m h hs', List.nil_append, ← List.range_eq_range', rowSpec_eq_intercalate]
+  have hrow : (fun r => rowTxtGen render m (dispW render m)
+        (fun row => spaceW TAB_SIZE ++ padLeftNat row (toString m.data.size).length ++ spaceW OUTER_GAP)
+        (fun index => padLeftNat index (toString m.data.size).length ++ spaceW INNER_GAP) r) =
+      fun r => debugRowText render m (dispW render m) (toString m.data.size).length r := by
+    funext r
+    simp only [rowTxtGen, debugRowText, rowSpec_eq_intercalate, List.append_assoc]
+    rfl
+  rw [hrow]
+
 /-! ### non-vacuity (explicit character lists: string literals do not reduce in the kernel) -/
 def m23 : Matrix (List Char) := ⟨.colMajor, ⟨3, 2⟩, #[['1'], ['4', '0'], ['2'], ['5'], ['ä', 'ö', 'ü'], []]⟩  -- logical 2×3
 def m23r : Matrix (List Char) := ⟨.rowMajor, ⟨2, 3⟩, #[['1'], ['2'], ['ä', 'ö', 'ü'], ['4', '0'], ['5'], []]⟩
@@ -148,5 +205,7 @@ example : display id m23 = .ok
      [' ', ' ', ' ', ' ', '[', '4', '0', ' ', ' ', ' ', '5', ' ', ' ', ' ', ' ', ' ', ' ', ' ', ']', '\n'] ++ [']']) := by rfl
 example : display id m23 = display id m23r := by rfl
 example : display id m23 = .ok (displaySpec id m23) := by rfl
+example : debug id m23 = .ok (debugSpec id m23) := by rfl
+example : debug id m23r = .ok (debugSpec id m23r) := by rfl
 
 end Matreex.C20
